@@ -644,7 +644,7 @@ impl<S: Syntax, D> SyntaxNode<S, D> {
     #[cfg(cstree_verif)]
     #[doc(hidden)]
     pub fn verif_ref_count(&self) -> u32 {
-        unsafe { &*self.data().ref_count }.load(Ordering::SeqCst)
+        unsafe { &*self.data().ref_count }.peek()
     }
 
     /// Returns an iterator along the chain of parents of this node.
